@@ -11,7 +11,7 @@ import BSModel.Model.EncodingOutUtf
     c08 subcs <e>                             CharsetMetaAttributeValue.substitute_encoding
     c08 subc <e> <orig>                       ContentMetaAttributeValue.substitute_encoding
     c08 search <orig>                         CHARSET_RE.search(orig) is not None        -> 0|1
-    c08 setup <name> <n> (<key> <val>)*n      set_up_substitutions                       -> key:kind … (kind p|c|m)
+    c08 setup <name> <n> (<key> <p|l|n> <val>)*n  set_up_substitutions                       -> key:kind … (kind p|c|m)
     c08 render <d|pN|c|cpN> <ev|N> <tree>     decode / decode(indent_level=N) / decode_contents -> cps
     c08 encode <e|p|c|cs> <name> <codec> <tree>   encode / prettify(enc) / encode_contents / encode_contents with `strict`
     c08 xmldecl <ev|N>
@@ -20,7 +20,9 @@ import BSModel.Model.EncodingOutUtf
 
     codec := sb:<name cps>  (generated single-byte table)  |  utf:<name cps>  (utf-8, utf-16[-le|-be], utf-32[-le|-be])
              |  set:<0|1>:<encodable cps>  (identity bytes; 1 = ASCII encodable too)
-    tree  := S <cps> | T <name> <nattrs> (<key> <p|c|m> <val>)*nattrs <nkids> tree*nkids -/
+    tree  := S <cps> | T <name> <nattrs> (<key> <p|c|m|n|l> <val>)*nattrs <nkids> tree*nkids
+             (n: value None, <val> ignored; l: list value, items separated by `;`, `_` alone = empty list)
+    render modes s / ps / cs: str(tag) / tag.prettify() / tag.decode_contents() with their default eventual_encoding -/
 namespace BS.Drv.C08
 open BS.EncodingOut BS.Drv BS.Gen.EncodingOut
 
@@ -51,14 +53,17 @@ def showSniff : Option Sniffed → String
   | some .utf32le => "utf-32le"
   | none => "N"
 
-def parseKind (k : String) (v : PStr) : AttrVal :=
-  if k == "c" then .charsetMeta v else if k == "m" then .contentMeta v else .plain v
+def parseKindS (k : String) (v : String) : AttrVal :=
+  if k == "c" then .charsetMeta (cps v) else if k == "m" then .contentMeta (cps v)
+  else if k == "n" then .novalue
+  else if k == "l" then .list ((v.splitOn ";").filter (· ≠ "_") |>.map cps)
+  else .plain (cps v)
 
 def parseAttrs : Nat → List String → Option (List (PStr × AttrVal) × List String)
   | 0, rest => some ([], rest)
   | n + 1, k :: kind :: v :: rest =>
     match parseAttrs n rest with
-    | some (as, rest') => some ((cps k, parseKind kind (cps v)) :: as, rest')
+    | some (as, rest') => some ((cps k, parseKindS kind v) :: as, rest')
     | none => none
   | _ + 1, _ => none
 
@@ -92,6 +97,8 @@ def kindOf : AttrVal → String
   | .plain _ => "p"
   | .charsetMeta _ => "c"
   | .contentMeta _ => "m"
+  | .novalue => "n"
+  | .list _ => "l"
 
 def parseMode (m : String) : Bool × Option Nat :=
   if m == "d" then (false, none)
@@ -119,13 +126,17 @@ def handle (toks : List String) : String :=
   | "setup" :: nm :: n :: rest =>
     let rec pairs : Nat → List String → List (PStr × AttrVal)
       | 0, _ => []
-      | k + 1, a :: v :: more => (cps a, .plain (cps v)) :: pairs k more
+      | k + 1, a :: kind :: v :: more => (cps a, parseKindS kind v) :: pairs k more
       | _ + 1, _ => []
     let out := setUpSubstitutions (cps nm) (pairs n.toNat! rest)
     if out.isEmpty then "-" else " ".intercalate (out.map (fun a => showL a.1 ++ ":" ++ kindOf a.2))
   | "render" :: m :: ev :: rest =>
     match parseNode (rest.length + 1) rest with
     | some (t, []) =>
+      if m == "s" then showL (strImpl t)
+      else if m == "ps" then showL (prettifyStrImpl t)
+      else if m == "cs" then showL (decodeContentsDefault t)
+      else
       let (contents, indent) := parseMode m
       showL (if contents then decodeContentsImpl indent (parseEv ev) t else decodeImpl indent (parseEv ev) t)
     | _ => "bad-tree"
